@@ -13,9 +13,26 @@ ROOT_NAME = "c20v_rootcand"      # only name ever created in "/" (removed at onc
 DIRS = ["r", "d1", "d2", "d3", "d4"]
 
 
-def mkcase(kinds, start, start_kind="abs", cwd=0, name="tasks", distractor=True, side="none", root="none"):
-    return {"kinds": list(kinds), "start": start, "start_kind": start_kind, "cwd": cwd,
-            "name": ROOT_NAME if root != "none" else name, "distractor": distractor, "side": side, "root": root}
+def mkcase(kinds, start, start_kind="abs", cwd=0, name="tasks", distractor=True, side="none", root="none",
+           link=None):
+    """link = None | ["file", L] (the module at level L is a symlink to a file elsewhere) |
+    ["pkg", L] (the package directory at level L is a symlink) | ["dir", L] (the level-L directory
+    itself, L >= 1, is a symlink to a directory elsewhere; deeper levels live behind it)"""
+    c = {"kinds": list(kinds), "start": start, "start_kind": start_kind, "cwd": cwd,
+         "name": ROOT_NAME if root != "none" else name, "distractor": distractor, "side": side, "root": root}
+    if link is not None:
+        c["link"] = list(link)
+    return c
+
+
+def link_applicable(kinds, mode, level):
+    if level >= len(kinds):
+        return False
+    if mode == "file":
+        return kinds[level] in ("mod", "both")
+    if mode == "pkg":
+        return kinds[level] in ("pkg", "both")
+    return mode == "dir" and level >= 1
 
 
 class C20(Prop):
@@ -43,6 +60,8 @@ class C20(Prop):
         "paths are '/'-separated normalised component lists (no '.', '..', doubled separators, symlinks)",
         "the start directory exists; collection names are identifiers",
         "module files are importable Python",
+        "relative starts are exercised only from a working directory whose path goes through no symlink "
+        "(os.getcwd() is physical; a logical/physical mismatch of the cwd is outside the model)",
     ]
     not_modelled = [
         "sys.path / sys.modules mutation (tested: sibling importability in extra_checks)",
@@ -93,13 +112,24 @@ class C20(Prop):
             root = "none"
             if rng.random() < 0.02:
                 root = rng.choice(["mod", "pkg"])
-            yield mkcase(kinds, start, sk, cwd, rng.choice(NAMES), rng.random() < 0.7, side, root)
+            link = None
+            if root == "none" and rng.random() < 0.3:
+                opts = [(m, lv) for m in ("file", "pkg", "dir") for lv in range(depth)
+                        if link_applicable(kinds, m, lv)]
+                if opts:
+                    link = list(rng.choice(opts))
+            yield mkcase(kinds, start, sk, cwd, rng.choice(NAMES), rng.random() < 0.7, side, root, link)
 
     def enumerate_small(self, tier):
         if tier == "quick":
             for kinds in itertools.product(KINDS, repeat=3):
                 for start in range(3):
                     yield mkcase(kinds, start)
+            for kinds in (("none", "mod", "none"), ("pkg", "pkg", "none"), ("mod", "none", "both")):
+                for mode in ("file", "pkg", "dir"):
+                    for lv in range(3):
+                        if link_applicable(kinds, mode, lv):
+                            yield mkcase(kinds, 2, link=[mode, lv], distractor=False)
             return
         # depth 4: every layout x every start level, absolute start
         for kinds in itertools.product(KINDS, repeat=5):
@@ -116,6 +146,13 @@ class C20(Prop):
             for side in ("mod", "pkg"):
                 for start in (0, 1, 2, "side"):
                     yield mkcase(kinds, start, side=side, distractor=False)
+        # symlinked module / package / intermediate directory at every level (depth 2)
+        for kinds in itertools.product(KINDS, repeat=3):
+            for mode in ("file", "pkg", "dir"):
+                for lv in range(3):
+                    if link_applicable(kinds, mode, lv):
+                        for start in range(3):
+                            yield mkcase(kinds, start, link=[mode, lv], distractor=False)
         # candidate in "/" itself
         for kinds in itertools.product(KINDS, repeat=2):
             for root in ("mod", "pkg"):
@@ -130,20 +167,45 @@ class C20(Prop):
         name = case["name"]
         other = [n for n in NAMES if n != name][0]
         top = os.path.join(self.base, "r")
+        shared = os.path.join(self.base, "shared")
         shutil.rmtree(top, ignore_errors=True)
+        shutil.rmtree(shared, ignore_errors=True)
+        link = case.get("link")
 
-        def put(d, kind, nm):
+        def put(d, kind, nm, linked=None):
+            # WHERE records the directory the module is *found* in (d), also for link targets
             if kind in ("mod", "both"):
-                with open(os.path.join(d, nm + ".py"), "w") as f:
-                    f.write("WHERE = %r\nKIND = 'mod'\n" % d)
+                body = "WHERE = %r\nKIND = 'mod'\n" % d
+                if linked == "file":
+                    os.makedirs(shared, exist_ok=True)
+                    target = os.path.join(shared, "impl_" + nm + ".py")
+                    with open(target, "w") as f:
+                        f.write(body)
+                    os.symlink(target, os.path.join(d, nm + ".py"))
+                else:
+                    with open(os.path.join(d, nm + ".py"), "w") as f:
+                        f.write(body)
             if kind in ("pkg", "both"):
-                os.makedirs(os.path.join(d, nm))
-                with open(os.path.join(d, nm, "__init__.py"), "w") as f:
-                    f.write("WHERE = %r\nKIND = 'pkg'\n" % d)
+                body = "WHERE = %r\nKIND = 'pkg'\n" % d
+                if linked == "pkg":
+                    target = os.path.join(shared, "pkgimpl_" + nm)
+                    os.makedirs(target)
+                    with open(os.path.join(target, "__init__.py"), "w") as f:
+                        f.write(body)
+                    os.symlink(target, os.path.join(d, nm))
+                else:
+                    os.makedirs(os.path.join(d, nm))
+                    with open(os.path.join(d, nm, "__init__.py"), "w") as f:
+                        f.write(body)
         for i, kind in enumerate(case["kinds"]):
             d = self._level_dir(i)
-            os.makedirs(d)
-            put(d, kind, name)
+            if link and link[0] == "dir" and link[1] == i and i >= 1:
+                target = os.path.join(shared, "dir_%d" % i)
+                os.makedirs(target)
+                os.symlink(target, d)
+            else:
+                os.makedirs(d)
+            put(d, kind, name, linked=link[0] if link and link[1] == i else None)
             if case["distractor"]:
                 put(d, "mod", other)
         if case["side"] != "none":
@@ -159,15 +221,24 @@ class C20(Prop):
             return os.path.join(self.base, "r", "side")
         return self._level_dir(case["start"])
 
+    @staticmethod
+    def _kind(case):
+        """effective start kind: os.getcwd() is the *physical* directory, so a relative start is only
+        exercised from a working directory whose path goes through no symlink"""
+        link = case.get("link")
+        if case["start_kind"] == "rel" and link and link[0] == "dir" and link[1] <= case["cwd"]:
+            return "abs"
+        return case["start_kind"]
+
     def _world(self, case):
         """(cwd, start string, fs description) -- fs = what os.listdir / os.path.exists answer for
         every directory string the walk or the reference may look at."""
         name = case["name"]
         sdir = self._start_dir(case)
-        cwd = self._level_dir(case["cwd"]) if case["start_kind"] == "rel" else self.base
-        if case["start_kind"] == "abs":
+        cwd = self._level_dir(case["cwd"]) if self._kind(case) == "rel" else self.base
+        if self._kind(case) == "abs":
             start = sdir
-        elif case["start_kind"] == "slash":
+        elif self._kind(case) == "slash":
             start = sdir + "/"
         else:
             start = os.path.relpath(sdir, cwd)
@@ -178,9 +249,9 @@ class C20(Prop):
             if d == "/":
                 break
             d = os.path.dirname(d)
-        if case["start_kind"] == "slash":
+        if self._kind(case) == "slash":
             keys.append((sdir + "/", sdir))
-        if case["start_kind"] == "rel":
+        if self._kind(case) == "rel":
             comps = start.split("/")
             for k in range(len(comps), 0, -1):
                 rel = "/".join(comps[:k])
@@ -278,7 +349,8 @@ class C20(Prop):
     def classify(self, case, obs):
         o = obs["raw"]
         what = "loaded" if "loaded" in o else o["exc"]
-        return "%s:%s:depth=%d" % (case["start_kind"], what, len(case["kinds"]) - 1)
+        lk = ":link=" + case["link"][0] if case.get("link") else ""
+        return "%s:%s:depth=%d%s" % (case["start_kind"], what, len(case["kinds"]) - 1, lk)
 
     def finding_of(self, case, obs):
         if obs["raw"].get("exc") != "CollectionNotFound":
@@ -286,7 +358,7 @@ class C20(Prop):
         near = self._nearest(case)
         if near is None:
             return None
-        if case["start_kind"] in ("abs", "slash"):
+        if self._kind(case) in ("abs", "slash"):
             # only the root holds a candidate: '/' is never examined from below
             return "F-C20" if near[0] == "root" else None
         # relative start: nothing at or above the cwd is examined
@@ -298,6 +370,10 @@ class C20(Prop):
 
     def shrink_candidates(self, case):
         kinds = case["kinds"]
+        if case.get("link"):
+            c = dict(case)
+            del c["link"]
+            yield c
         if case["distractor"]:
             yield dict(case, distractor=False)
         if case["side"] != "none" and case["start"] != "side":
@@ -352,13 +428,25 @@ class C20(Prop):
     def _siblings(self):
         from invoke.loader import FilesystemLoader
         fails, n = [], 0
-        for kind in ("mod", "pkg"):
+        for kind in ("mod", "linkmod", "linkdir", "pkg"):
             for start_rel in ("p", "p/q"):
                 top = self._fresh()
                 d = os.path.join(top, "p")
-                if kind == "mod":
-                    open(os.path.join(d, "c20v_sib.py"), "w").write("VALUE = 'sib-mod'\n")
+                if kind == "linkdir":
+                    # p itself is a symlink to a directory elsewhere; siblings live "in p"
+                    shutil.rmtree(d)
+                    os.makedirs(os.path.join(top, "elsewhere", "real_p", "q"))
+                    os.symlink(os.path.join(top, "elsewhere", "real_p"), d)
+                if kind in ("mod", "linkdir"):
+                    open(os.path.join(d, "c20v_sib.py"), "w").write("VALUE = 'sib-%s'\n" % kind)
                     open(os.path.join(d, "tasks.py"), "w").write("import c20v_sib\nVALUE = c20v_sib.VALUE\n")
+                elif kind == "linkmod":
+                    # tasks.py is a symlink into another directory; the sibling sits next to the link
+                    os.makedirs(os.path.join(top, "shared"))
+                    open(os.path.join(top, "shared", "impl_tasks.py"), "w").write(
+                        "import c20v_sib\nVALUE = c20v_sib.VALUE\n")
+                    os.symlink(os.path.join(top, "shared", "impl_tasks.py"), os.path.join(d, "tasks.py"))
+                    open(os.path.join(d, "c20v_sib.py"), "w").write("VALUE = 'sib-linkmod'\n")
                 else:
                     os.makedirs(os.path.join(d, "tasks"))
                     open(os.path.join(d, "tasks", "c20v_sib.py"), "w").write("VALUE = 'sib-pkg'\n")
@@ -376,20 +464,31 @@ class C20(Prop):
                 except Exception as e:  # noqa
                     fails.append({"case": {"kind": kind, "start": start_rel}, "what": repr(e)})
         return {"name": "sibling-importable", "evaluations": n, "failures": fails,
-                "note": "tasks.py importing a sibling module / tasks package importing a submodule relatively"}
+                "note": "tasks.py (plain, symlinked, or inside a symlinked directory) importing a sibling module "
+                        "next to it / tasks package importing a submodule relatively"}
 
     def _project_path(self):
         from invoke import Program
         fails, n = [], 0
-        for kind in ("mod", "pkg"):
+        for kind in ("mod", "linkmod", "linkpkg", "pkg"):
             for start_rel in ("p", "p/q"):
                 top = self._fresh()
                 d = os.path.join(top, "p")
                 open(os.path.join(top, "invoke.yaml"), "w").write("marker: wrong-above\n")
                 open(os.path.join(d, "invoke.yaml"), "w").write("marker: right\n")
                 body = "from invoke import task\n@task\ndef t(c):\n    pass\n"
+                if kind in ("linkmod", "linkpkg"):
+                    os.makedirs(os.path.join(top, "shared"))
+                    open(os.path.join(top, "shared", "invoke.yaml"), "w").write("marker: wrong-link-target\n")
                 if kind == "mod":
                     open(os.path.join(d, "tasks.py"), "w").write(body)
+                elif kind == "linkmod":
+                    open(os.path.join(top, "shared", "impl_tasks.py"), "w").write(body)
+                    os.symlink(os.path.join(top, "shared", "impl_tasks.py"), os.path.join(d, "tasks.py"))
+                elif kind == "linkpkg":
+                    os.makedirs(os.path.join(top, "shared", "pkgimpl"))
+                    open(os.path.join(top, "shared", "pkgimpl", "__init__.py"), "w").write(body)
+                    os.symlink(os.path.join(top, "shared", "pkgimpl"), os.path.join(d, "tasks"))
                 else:
                     os.makedirs(os.path.join(d, "tasks"))
                     open(os.path.join(d, "tasks", "__init__.py"), "w").write(body)
